@@ -303,7 +303,7 @@ impl<'a> Interp<'a> {
                 update(env, *x, v)?;
                 Ok(V::unit())
             }
-            Expr::Loop(_, body) => loop {
+            Expr::Loop(_, _, body) => loop {
                 match self.eval(env, body) {
                     Ok(_) | Err(Ctl::Cont) => continue,
                     Err(Ctl::Brk(v)) => return Ok(v),
